@@ -636,7 +636,7 @@ def gen_line_feature(rng, ctx, ftype, idx, ncomp, opts, where=None):
         if rng.random() < 0.5:
             sec['temperature models'] = [gen_temperature_model(rng, ctx, ftype, f, ['uniform', 'linear', 'adiabatic'])]
         f['sections'] = [sec]
-    if rng.random() < 0.3:
+    if opts.get('segment_models', True) and rng.random() < 0.3:
         s = rng.choice(f['segments'])
         s['composition models'] = [gen_composition_model(rng, ctx, ftype, f, ncomp, ['uniform'])]
     truth = {'type': ftype, 'name': f['name'], 'tag': f.get('tag') or ftype, 'trench': tr, 'dip': dip, 'd0': d0, 'd1': d1,
